@@ -24,6 +24,25 @@ fn decode_ops(h: &[u8]) -> Vec<WOp> {
         .collect()
 }
 
+/// the palette whose shape a was read from a record with an inverted stored box (multi-vertex types)
+pub fn sloppy_palette(ty: Ty) -> Palette {
+    use crate::refmodel::codec::{self, MBody, MFile, MRecord};
+    let mut pal = Palette::new(ty, Some(other_of(ty)));
+    if ty.family() != Family::Point {
+        let shape = pal.built[0].shape.clone();
+        let mut bbox = codec::true_bbox(&shape);
+        bbox.swap(0, 2);
+        bbox.swap(1, 3);
+        let f = MFile { ty, header_box: [0.0; 8], records: vec![MRecord { number: 1, body: MBody::Shape { shape, bbox, with_m: true } }], trailing: vec![] };
+        let bytes = codec::encode(&f).bytes;
+        let mut r = shapefile::ShapeReader::new(crate::dev::Dev::quiet(bytes)).expect("open");
+        let lib = r.iter_shapes().next().expect("one record").expect("readable");
+        pal.built[0] = crate::bridge::from_lib(&lib);
+        pal.lib[0] = lib;
+    }
+    pal
+}
+
 /// the type a rejected write offers
 fn other_of(t: Ty) -> Ty {
     ALL13[(ALL13.iter().position(|x| *x == t).unwrap() + 5) % 13]
@@ -36,6 +55,9 @@ pub struct Case {
     pub prefill: bool,
     /// ... and are not positioned at their start when the writer gets them
     pub offset: bool,
+    /// shape a is not constructed but read from a record whose stored box is inverted in X and Y (the reader keeps
+    /// the stored box; the shape then announces min > max)
+    pub sloppy: bool,
     pub with_shx: bool,
     pub ending: Ending,
     pub ops: Vec<WOp>,
@@ -45,21 +67,23 @@ impl Case {
     fn from_hist(h: &Hist) -> Case {
         Case {
             ty: ALL13[h[0] as usize],
-            prefill: h[1] >= 2,
+            prefill: h[1] == 2 || h[1] == 3,
             offset: h[1] == 3,
+            sloppy: h[1] == 4,
             with_shx: h[1] >= 1,
             ending: ENDINGS[h[2] as usize],
             ops: decode_ops(&h[CFG..]),
         }
     }
     pub fn to_json(&self) -> Value {
-        json!({"ty": self.ty.name(), "prefill": self.prefill, "offset": self.offset, "with_shx": self.with_shx, "ending": self.ending.name(), "ops": ops_name(&self.ops)})
+        json!({"ty": self.ty.name(), "prefill": self.prefill, "offset": self.offset, "sloppy": self.sloppy, "with_shx": self.with_shx, "ending": self.ending.name(), "ops": ops_name(&self.ops)})
     }
     pub fn from_json(v: &Value) -> Option<Case> {
         Some(Case {
             ty: Ty::from_name(v.get("ty")?.as_str()?)?,
             prefill: v.get("prefill").and_then(|x| x.as_bool()).unwrap_or(false),
             offset: v.get("offset").and_then(|x| x.as_bool()).unwrap_or(false),
+            sloppy: v.get("sloppy").and_then(|x| x.as_bool()).unwrap_or(false),
             with_shx: v.get("with_shx")?.as_bool()?,
             ending: Ending::from_name(v.get("ending")?.as_str()?)?,
             ops: ops_from_name(v.get("ops")?.as_str()?)?,
@@ -287,7 +311,7 @@ pub fn judge(pal: &Palette, case: &Case, o: &Obs) -> Vec<(String, String)> {
 
 fn run(pals: &[Palette], h: &Hist, ctx: &mut Ctx) {
     let case = Case::from_hist(h);
-    let pal = &pals[h[0] as usize];
+    let pal = &pals[h[0] as usize + if case.sloppy { 13 } else { 0 }];
     let mut hh = Fnv::new();
     hh.bytes(h);
     let obs = match catch(|| observe(pal, &case)) {
@@ -320,6 +344,7 @@ fn selftest(pals: &[Palette]) -> (u64, u64) {
         ty: Ty::PolylineM,
         prefill: false,
         offset: false,
+        sloppy: false,
         with_shx: true,
         ending: Ending::FinalizeDrop,
         ops: vec![WOp::W(0), WOp::F, WOp::F, WOp::W(1)],
@@ -398,10 +423,13 @@ pub fn disk_verdicts(pal: &Palette, ty: Ty, h: &[WOp]) -> Vec<(String, String)> 
 pub fn check(tier: Tier) -> i32 {
     let started = Instant::now();
     let depth = tier.pick(7, 10);
-    let pals: Arc<Vec<Palette>> = Arc::new(ALL13.iter().map(|t| Palette::new(*t, Some(other_of(*t)))).collect());
+    let pals: Arc<Vec<Palette>> = Arc::new(ALL13.iter().map(|t| Palette::new(*t, Some(other_of(*t)))).chain(ALL13.iter().map(|t| sloppy_palette(*t))).collect());
     let mut inits = vec![];
     for t in 0..13u8 {
-        for x in 0..4u8 {
+        for x in 0..5u8 {
+            if x == 4 && ALL13[t as usize].family() == Family::Point {
+                continue;
+            }
             for e in 0..ENDINGS.len() as u8 {
                 inits.push(vec![t, x, e]);
             }
@@ -468,7 +496,7 @@ pub fn check(tier: Tier) -> i32 {
             tier,
             level: "model_checking",
             engine: "E1 stateright BFS over operation histories (state = history, no merging), each state executed on the real ShapeWriter over instrumented devices",
-            rule: "every sequence over {write a, write b, finalize, and at most one refused write of another type behind a write} up to the depth bound x 13 types x {without .shx, with .shx, with .shx into buffers that already hold longer stale content, the same with both destinations not positioned at their start} x 6 endings {drop, finalize+drop, write_shapes(self,[c]*k) k=0,1,2, drop by stack unwinding}; plus every history up to depth 3 through ShapeWriter::from_path over paths that already hold longer files; distinct = the history; non-trivial = contains a finalize or a non-drop ending",
+            rule: "every sequence over {write a, write b, finalize, and at most one refused write of another type behind a write} up to the depth bound x 13 types x {without .shx, with .shx, with .shx into buffers that already hold longer stale content, the same with both destinations not positioned at their start, with .shx and shape a read from a record whose stored box is inverted} x 6 endings {drop, finalize+drop, write_shapes(self,[c]*k) k=0,1,2, drop by stack unwinding}; plus every history up to depth 3 through ShapeWriter::from_path over paths that already hold longer files; distinct = the history; non-trivial = contains a finalize or a non-drop ending",
             bounds: json!({"depth": depth, "alphabet": ["Wa", "Wb", "F", "R (<=1)"], "types": 13, "endings": 6, "index": [true, false]}),
             exhaustive: true,
             assumptions: vec![
@@ -506,7 +534,7 @@ pub fn replay(v: &Value) -> Vec<(String, String)> {
         Some(c) => c,
         None => return vec![("bad-replay-file".into(), "cannot parse case".into())],
     };
-    let pal = Palette::new(case.ty, Some(other_of(case.ty)));
+    let pal = if case.sloppy { sloppy_palette(case.ty) } else { Palette::new(case.ty, Some(other_of(case.ty))) };
     match catch(|| observe(&pal, &case)) {
         Ok(o) => judge(&pal, &case, &o),
         Err(p) => vec![(format!("harness-or-drop-panic:{}", p.sig()), p.msg)],
